@@ -32,9 +32,9 @@ class RenderFrame(Harness):
     goals = ["data_frame.py:DataFrame.to_string", "vector.py:Vector.to_strings", "util.py:upad", "util.py:ulen"]
     SETTINGS = [(), (("PRINT_MAX_ROWS", 1),), (("PRINT_TRUNCATE_WIDTH", 5), ("PRINT_THOUSAND_SEPARATOR", ",")), (("PRINT_FLOAT_PRECISION", 0), ("PRINT_MAX_ROWS", 2)),
                 (("PRINT_MAX_WIDTH", 30),)]
-    def __init__(self, kinds, maxn, cls="DataFrame", settings=False):
-        self.kinds = kinds; self.maxn = maxn; self.cls = cls; self.settings = settings
-        self.name = f"C20.{'frame' if cls == 'DataFrame' else 'geojson'}.{'+'.join(kinds)}{'.settings' if settings else ''}.n{maxn}"
+    def __init__(self, kinds, maxn, cls="DataFrame", settings=False, names=None):
+        self.kinds = kinds; self.maxn = maxn; self.cls = cls; self.settings = settings; self.names = names
+        self.name = f"C20.{'frame' if cls == 'DataFrame' else 'geojson'}.{'+'.join(kinds)}{'.settings' if settings else ''}{'.named_' + '_'.join(names) if names else ''}.n{maxn}"
         self.bounds = {"rows": f"0..{maxn}", "columns": [DTYPE_LABEL[k] for k in kinds], "max_width": "5..60 or terminal 20..200",
                        "max_rows": "1..nrow+1 or default", "truncate_width": "default, 5, 36",
                        "strings": "from a pool with CJK (wide), combining marks, multi-line, 45 characters, empty"}
@@ -44,7 +44,7 @@ class RenderFrame(Harness):
         n = choice("n", range(self.maxn + 1))
         cols = {}
         for j, k in enumerate(self.kinds):
-            cols[NAMES[j]] = pool_col(k, n, f"c{j}")
+            cols[(self.names or NAMES)[j]] = pool_col(k, n, f"c{j}")
         if self.cls == "GeoJSON":
             cols["geometry"] = Arr("object", [choice(f"g{i}", [None, {"type": "Point", "coordinates": [1, 2]}]) for i in range(n)])
         how = choice("how", ["to_string", "repr", "print_"] + (["str"] if self.settings or not self.kinds else []))
@@ -170,7 +170,8 @@ def harnesses(tier):
     q = tier == "quick"
     hs = [RenderFrame(["i"], 2, settings=True), RenderFrame(["T"], 1 if q else 2, settings=True), RenderFrame(["f"], 1 if q else 2, settings=True),
           RenderFrame(["i"], 2), RenderFrame(["f"], 1 if q else 2), RenderFrame(["T", "i"], 1 if q else 2), RenderFrame(["O", "D"], 2),
-          RenderFrame(["i"], 2, cls="GeoJSON"), RenderFrame([], 0), RenderFrame(["U"], 2)]
+          RenderFrame(["i"], 2, cls="GeoJSON"), RenderFrame([], 0), RenderFrame(["U"], 2),
+          RenderFrame(["i", "T"], 1, names=["count", "nrow"]), RenderFrame(["i"], 1, names=["items"])]      # columns named like methods / properties
     for k in ("i", "f", "T", "O", "b", "D"):
         hs.append(RenderVector(k, 2))
     hs.append(RenderLod(2))
